@@ -242,7 +242,7 @@ def build_pool(rng, harvested, size=200):
 
 
 # ------------------------------------------------------------------ the laws on one pool
-def check_pool(pool, tags, R):
+def check_pool(pool, tags, R, prefix=""):
     n = len(pool)
     canons = [canon(a) for a in pool]
     chash = [shash(c) for c in canons]
@@ -298,7 +298,7 @@ def check_pool(pool, tags, R):
                     R.viol(f"eq-but-hash-differs:{type(a).__name__}", "a == b but hash(a) != hash(b)", [a, b])
             if e:
                 R.bump("equal_pairs")
-    R.bump("pairs_compared", n * (n - 1) // 2)
+    R.bump(prefix + "pairs_compared", n * (n - 1) // 2)
     # complete transitivity check over the measured relation
     for b in range(n):
         cls = [i for i in range(n) if eq[b][i]]
@@ -339,6 +339,27 @@ def check_pool(pool, tags, R):
     if len(s) > ncanon:
         # some equal values did not merge: must be explained by pairs already reported (eq false or hash differs)
         R.bump("sets_larger_than_value_count")
+
+
+# ------------------------------------------------------------------ directed: same-class groups of corpus attributes
+def check_class_groups(harvested, rng, R, per_class=14):
+    """All pairs among (up to per_class) distinct corpus instances of each attribute class plus one near-duplicate
+    each: distinct values of one class must be unequal (a generated __eq__ that misses a parameter shows up here)."""
+    groups = {}
+    for h in harvested:
+        groups.setdefault(type(h), []).append(h)
+    for cls, members in sorted(groups.items(), key=lambda kv: kv[0].__module__ + kv[0].__qualname__):
+        members = members if len(members) <= per_class else rng.sample(members, per_class)
+        extra = []
+        for m in members[:6]:
+            extra += genattr.near_duplicates(m, rng, k=1)
+        pool = members + [e for e in extra if type(e) is cls]
+        if len(pool) < 2:
+            R.bump("class_groups_singleton")
+            continue
+        R.bump("class_groups")
+        R.sets["group_classes"].add(cls.__module__.split(".")[-1] + "." + cls.__name__)
+        check_pool(pool, ["corpus"] * len(members) + ["corpus-neardup"] * (len(pool) - len(members)), R, prefix="group_")
 
 
 # ------------------------------------------------------------------ two contexts
@@ -490,7 +511,7 @@ class Rec:
     def __init__(self, job):
         self.job = job
         self.counters = {}
-        self.sets = {"twoctx_classes": set(), "pool_classes": set(), "corpus_dialects": set()}
+        self.sets = {"twoctx_classes": set(), "pool_classes": set(), "corpus_dialects": set(), "group_classes": set()}
         self.violations = []
         self.nontrivial = set()
         self.per_key = {}
@@ -514,7 +535,7 @@ class Rec:
 
 
 def plan(tier, seed):
-    shards = 16 if tier == "quick" else 64
+    shards = 12 if tier == "quick" else 64
     jobs = []
     for i in range(shards):
         jobs.append({"seed": seed, "shard": i, "nshards": shards,
@@ -522,6 +543,9 @@ def plan(tier, seed):
                      "twoctx": 300 if tier == "quick" else 4000,
                      "corpus_chunks": 40 if tier == "quick" else 400,
                      "cse": 60 if tier == "quick" else 800})
+    # one directed job: corpus-wide same-class groups (quick: every second chunk)
+    jobs.append({"seed": seed, "kind": "groups", "shard": seed % 2 if tier == "quick" else 0,
+                 "nshards": 2 if tier == "quick" else 1, "corpus_chunks": 100000})
     return jobs
 
 
@@ -535,6 +559,10 @@ def work(job):
     R.bump("corpus_distinct_attrs_harvested", len(harvested))
     for h in harvested:
         R.sets["corpus_dialects"].add(h.name.split(".")[0] if "." in h.name else "builtin")
+    if job.get("kind") == "groups":
+        check_class_groups(harvested, rng, R)
+        return {"evaluations": R.counters.get("group_pairs_compared", 0), "nontrivial": sorted(R.nontrivial), "samples": [],
+                "counters": R.counters, "sets": {k: sorted(v) for k, v in R.sets.items()}, "violations": R.violations}
     samples = []
     for p in range(job["pools"]):
         pool, tags = build_pool(rng, harvested)
@@ -564,7 +592,8 @@ def finish(agg, tier):
     q = tier == "quick"
     for k, need in (("pairs_compared", 500000 if q else 2e7), ("equal_pairs", 2000 if q else 80000),
                     ("nontrivial_pairs", 5000 if q else 200000), ("transitivity_triples", 1000 if q else 40000),
-                    ("twoctx_generated_texts", 2000 if q else 100000), ("twoctx_corpus_attr_pairs", 5000 if q else 50000),
+                    ("twoctx_generated_texts", 1500 if q else 100000), ("twoctx_corpus_attr_pairs", 2500 if q else 10000),
+                    ("group_pairs_compared", 3000 if q else 6000), ("class_groups", 60 if q else 100),
                     ("cse_uses_checked", 2000 if q else 100000), ("cse_ops_merged", 200 if q else 5000),
                     ("corpus_distinct_attrs_harvested", 500), ("lookups_through_equal_copy", 500 if q else 20000)):
         if c.get(k, 0) < need:
